@@ -1,8 +1,13 @@
 SPECIFICATION Spec
 CONSTANTS
-  Kinds <- KindsAll
+  Kinds <- KindsChain
   NeedsWitness <- Needs
-  Variants <- QuickVariants
+  FeeKinds <- Fees
+  ParamKind = "setparam"
+  MaxParam = 1
+  MaxRestart = 1
+  StaleGasTable = FALSE
+  Variants <- ChainVariants
   SameAddr <- ProbedSameAddr
   MaxTx = 1
   MaxBlocks = 3
